@@ -771,4 +771,528 @@ theorem tokens_seps {f : ListFormatting} {rc : Rc} {sp : SeparatorPlace} {i : Na
     rw [sepTexts_append, sepTexts_block f sp _ _ inner hpre hpost, ih]
     simp [sepSpecGo, hs]
 
+/-! ### White space -/
+
+theorem squeeze_append (a b : List Char) : squeeze (a ++ b) = squeeze a ++ squeeze b := by
+  simp [squeeze]
+
+theorem squeeze_of_ws {s : List Char} (h : ∀ c ∈ s, isWhitespace c = true) : squeeze s = [] := by
+  simp only [squeeze, List.filter_eq_nil_iff]
+  intro c hc
+  simp [h c hc]
+
+theorem squeeze_trimStart (s : List Char) : squeeze (trimStart s) = squeeze s := by
+  induction s with
+  | nil => rfl
+  | cons c cs ih =>
+    simp only [trimStart, List.dropWhile_cons]
+    split
+    · rename_i hc
+      simp only [trimStart] at ih
+      rw [ih]
+      simp [squeeze, hc]
+    · rfl
+
+theorem squeeze_trimEnd (s : List Char) : squeeze (trimEnd s) = squeeze s := by
+  induction s with
+  | nil => rfl
+  | cons c cs ih =>
+    simp only [trimEnd]
+    split
+    · rename_i h
+      simp only [Bool.and_eq_true, List.isEmpty_iff] at h
+      obtain ⟨h1, h2⟩ := h
+      rw [h1] at ih
+      simp only [squeeze, List.filter_cons, h2, Bool.not_true, Bool.false_eq_true, ↓reduceIte]
+      simpa [squeeze] using ih
+    · simp only [squeeze, List.filter_cons] at ih ⊢
+      rw [ih]
+
+theorem squeeze_trim (s : List Char) : squeeze (trim s) = squeeze s := by
+  rw [trim, squeeze_trimEnd, squeeze_trimStart]
+
+/-- The indentation string is white space. -/
+theorem indentString_ws (indent : Indent) (config : Config) :
+    ∀ c ∈ indentString indent config, isWhitespace c = true := by
+  intro c hc
+  unfold indentString at hc
+  split at hc
+  · rename_i s hs
+    unfold Indent.to_string Indent.to_string_inner at hs
+    have key : ∀ {x : Nat × Nat}, (if x.1 = 0 ∧ x.1 + x.2 + 1 ≤ INDENT_BUFFER_LEN then
+        sliceInclusive INDENT_BUFFER 1 (x.1 + x.2)
+        else .ok ((if (1 : Nat) = 0 then ['\n'] else []) ++ List.replicate x.1 '\t' ++
+          List.replicate x.2 ' ')) = Except.ok s → c = '\n' ∨ c = ' ' ∨ c = '\t' := by
+      intro x hx
+      split at hx
+      · unfold sliceInclusive at hx
+        split at hx
+        · simp only [Except.ok.injEq] at hx
+          subst hx
+          have h1 := List.mem_of_mem_take hc
+          have h2 := List.mem_of_mem_drop h1
+          simp only [INDENT_BUFFER, List.mem_cons, List.mem_replicate] at h2
+          rcases h2 with h | h
+          · exact Or.inl h
+          · exact Or.inr (Or.inl h.2)
+        · simp at hx
+      · simp only [Except.ok.injEq] at hx
+        subst hx
+        simp only [Nat.succ_ne_zero, ↓reduceIte, List.nil_append, List.mem_append,
+          List.mem_replicate] at hc
+        rcases hc with h | h
+        · exact Or.inr (Or.inr h.2)
+        · exact Or.inr (Or.inl h.2)
+    have hcws : c = '\n' ∨ c = ' ' ∨ c = '\t' := by
+      split at hs
+      · split at hs
+        · simp at hs
+        · rename_i t ht
+          exact key (x := (t, indent.alignment)) hs
+      · exact key (x := (0, indent.width)) hs
+    rcases hcws with rfl | rfl | rfl <;> decide
+  · simp at hc
+
+/-- Without its blanks, the result is the concatenation of its non-blank pieces. -/
+theorem squeeze_render {ind : List Char} (hind : ∀ c ∈ ind, isWhitespace c = true) :
+    ∀ (ps : List Piece), BlanksOK ind ps →
+      squeeze (render ps) = (nonBlank ps).flatMap (fun p => squeeze p.text) := by
+  intro ps
+  induction ps with
+  | nil => intro _; rfl
+  | cons p ps ih =>
+    intro hb
+    have hb' : BlanksOK ind ps := fun q hq => hb q (List.mem_cons_of_mem _ hq)
+    rw [render_cons, squeeze_append, ih hb']
+    by_cases hk : p.kind = .blank
+    · have hws : ∀ c ∈ p.text, isWhitespace c = true := by
+        intro c hc
+        rcases hb p (List.mem_cons_self) hk c hc with rfl | rfl | h
+        · decide
+        · decide
+        · exact hind c h
+      rw [squeeze_of_ws hws]
+      simp [nonBlank, hk]
+    · simp [nonBlank, hk]
+
+/-! ### Content -/
+
+theorem content_pre {rc : Rc} {item : ListItem} {ps : List Piece}
+    (hrc : ∀ c bs sh r, rc c bs sh = some r → squeeze r = squeeze c) (h : PreOK rc item ps) :
+    ps.flatMap (fun p => squeeze p.text) = squeeze (item.preComment.getD []) := by
+  unfold PreOK at h
+  split at h
+  · rename_i hc; subst h; simp [hc, squeeze]
+  · rename_i c hc
+    obtain ⟨r, bs, sh, hr, rfl⟩ := h
+    simp [hc, hrc c bs sh r hr]
+
+theorem content_post {rc : Rc} {item : ListItem} {ps : List Piece}
+    (hrc : ∀ c bs sh r, rc c bs sh = some r → squeeze r = squeeze c) (h : PostOK rc item ps) :
+    ps.flatMap (fun p => squeeze p.text) = squeeze (item.postComment.getD []) := by
+  unfold PostOK at h
+  split at h
+  · rename_i hc; subst h; simp [hc, squeeze]
+  · rename_i c hc
+    obtain ⟨r, bs, sh, hr, rfl⟩ := h
+    rcases hr with hr | hr
+    · simp [hc, hrc c bs sh r hr]
+    · simp [hc, hrc _ bs sh r hr, squeeze_trimStart]
+
+theorem content_block {rc : Rc} {item : ListItem} {pre post : List Piece} (f : ListFormatting)
+    (sp : SeparatorPlace) (i : Nat) (last : Bool) (inner : List Char)
+    (hrc : ∀ c bs sh r, rc c bs sh = some r → squeeze r = squeeze c)
+    (hit : item.item = some inner) (hs : item.isSubstantial = true)
+    (hpre : PreOK rc item pre) (hpost : PostOK rc item post) :
+    (blockTokens f sp i last inner pre post).flatMap (fun p => squeeze p.text) =
+      itemContent f sp i last item := by
+  unfold blockTokens itemContent sepFront sepBack
+  have h1 := content_pre hrc hpre
+  have h2 := content_post hrc hpost
+  simp only [hs, Bool.not_true, Bool.false_eq_true, ↓reduceIte, List.flatMap_append, h1,
+    ListItem.innerAsRef, hit, Option.getD_some]
+  by_cases ht : f.tactic = .horizontal
+  · simp only [ht, ↓reduceIte, beq_self_eq_true, List.flatMap_append, h2]
+    split <;> split <;> simp [squeeze_trim]
+  · have ht' : (f.tactic == DefinitiveListTactic.horizontal) = false := by simp [ht]
+    simp only [ht, ↓reduceIte, ht', Bool.false_eq_true, List.flatMap_append, h2]
+    split <;> split <;> simp [squeeze_trim]
+
+/-- **Content.**  If the comment rewriter keeps the non-blank characters of a comment, the non-blank
+characters of the token list are those of `contentGo`. -/
+theorem tokens_content {f : ListFormatting} {rc : Rc} {sp : SeparatorPlace} {i : Nat}
+    {items : List ListItem} {ts : List Piece}
+    (hrc : ∀ c bs sh r, rc c bs sh = some r → squeeze r = squeeze c)
+    (h : TokensOK f rc sp i items ts) :
+    ts.flatMap (fun p => squeeze p.text) = contentGo f sp i items := by
+  induction h with
+  | nil i => simp [contentGo]
+  | skip inner hit hs _ ih => simpa [contentGo, itemContent, hs] using ih
+  | write inner pre post hit hs hpre hpost _ ih =>
+    rw [List.flatMap_append, content_block f sp _ _ inner hrc hit hs hpre hpost, ih]
+    simp [contentGo]
+
+/-! ### definitive_tactic -/
+
+theorem calculateWidth_go (items : List ListItem) (a b : Nat) :
+    items.foldl (fun acc it => (acc.1 + 1, acc.2 + totalItemWidth it)) (a, b) =
+      (a + items.length, b + (items.map totalItemWidth).sum) := by
+  induction items generalizing a b with
+  | nil => simp
+  | cons it rest ih =>
+    simp only [List.foldl_cons, List.length_cons, List.map_cons, List.sum_cons]
+    rw [ih]
+    congr 1 <;> omega
+
+/-- `calculate_width` returns the number of items and the sum of their widths. -/
+theorem calculateWidth_eq (items : List ListItem) :
+    calculateWidth items = (items.length, (items.map totalItemWidth).sum) := by
+  simpa [calculateWidth] using calculateWidth_go items 0 0
+
+/-- What `definitive_tactic` measures: the widths of the items plus one separator between
+neighbours. -/
+def realTotal (items : List ListItem) (sep : Separator) : Nat :=
+  (items.map totalItemWidth).sum + sep.len * (items.length - 1)
+
+/-- The limit the measured width is compared with. -/
+def tacticLimit (tactic : ListTactic) (width : Nat) : Nat :=
+  match tactic with
+  | .limitedHorizontalVertical limit => min width limit
+  | _ => width
+
+theorem definitiveTactic_eq (items : List ListItem) (tactic : ListTactic) (sep : Separator) (width : Nat) :
+    definitiveTactic items tactic sep width =
+      if items.any ListItem.hasSingleLineComment then .vertical
+      else match tactic with
+        | .horizontal => .horizontal
+        | .vertical => .vertical
+        | _ =>
+          if realTotal items sep ≤ tacticLimit tactic width ∧ items.any ListItem.isMultiline = false then
+            .horizontal
+          else if tactic = .mixed then .mixed else .vertical := by
+  unfold definitiveTactic
+  simp only [calculateWidth_eq, realTotal, tacticLimit]
+  split
+  · rfl
+  · cases tactic <;> simp <;> (split <;> simp_all)
+
+theorem trimEnd_prefix (s : List Char) : trimEnd s <+: s := by
+  induction s with
+  | nil => exact List.prefix_refl _
+  | cons a cs ih =>
+    simp only [trimEnd]
+    split
+    · exact List.nil_prefix
+    · exact (List.prefix_cons_inj a).2 ih
+
+theorem trimEnd_cons_of_not_ws {a : Char} (h : isWhitespace a = false) (s : List Char) :
+    trimEnd (a :: s) = a :: trimEnd s := by
+  simp [trimEnd, h]
+
+theorem startsWith_trimEnd_slashes (t : List Char) :
+    startsWith ['/', '/'] (trimEnd t) = startsWith ['/', '/'] t := by
+  have hw : isWhitespace '/' = false := by decide
+  cases h : startsWith ['/', '/'] t with
+  | true =>
+    obtain ⟨r, hr⟩ := List.isPrefixOf_iff_prefix.mp h
+    subst hr
+    simp [trimEnd_cons_of_not_ws hw, startsWith]
+  | false =>
+    cases h' : startsWith ['/', '/'] (trimEnd t) with
+    | false => rfl
+    | true =>
+      have := (List.isPrefixOf_iff_prefix.mp h').trans (trimEnd_prefix t)
+      have h2 : startsWith ['/', '/'] t = true := List.isPrefixOf_iff_prefix.mpr this
+      rw [h2] at h
+      exact absurd h (by simp)
+
+theorem dropWhile_head_not {p : Char → Bool} :
+    ∀ (l : List Char) (y : Char) (ys : List Char), l.dropWhile p = y :: ys → p y = false := by
+  intro l
+  induction l with
+  | nil => intro y ys h; simp at h
+  | cons a as ih =>
+    intro y ys h
+    simp only [List.dropWhile_cons] at h
+    split at h
+    · exact ih y ys h
+    · rename_i hpa
+      simp only [List.cons.injEq] at h
+      obtain ⟨rfl, _⟩ := h
+      simpa using hpa
+
+/-- `has_single_line_comment` looks at the trimmed comment only. -/
+theorem startsWithSlashes_trim (c : List Char) : startsWithSlashes (trim c) = startsWithSlashes c := by
+  unfold startsWithSlashes
+  have h1 : trimStart (trim c) = trim c := by
+    -- `trim c` does not start with white space
+    unfold trim
+    have : ∀ s : List Char, (∀ x, s.head? = some x → isWhitespace x = false) →
+        trimStart (trimEnd s) = trimEnd s := by
+      intro s hs
+      cases s with
+      | nil => rfl
+      | cons x xs =>
+        have hx := hs x rfl
+        simp only [trimEnd]
+        split
+        · rfl
+        · simp [trimStart, hx]
+    apply this
+    intro x hx
+    simp only [trimStart] at hx
+    cases hd : List.dropWhile isWhitespace c with
+    | nil => simp [hd] at hx
+    | cons y ys =>
+      simp only [hd, List.head?_cons, Option.some.injEq] at hx
+      subst hx
+      exact dropWhile_head_not c _ ys hd
+  rw [h1, trim, startsWith_trimEnd_slashes]
+
+/-- Two comments that `definitive_tactic` cannot tell apart. -/
+def SameComment (a b : Option (List Char)) : Prop :=
+  match a, b with
+  | none, none => True
+  | some c, some c' => trim c' = trim c ∧ hasNewline c' = hasNewline c
+  | _, _ => False
+
+/-- Two items that `definitive_tactic` cannot tell apart. -/
+def SameMeasure (a b : ListItem) : Prop :=
+  b.item = a.item ∧ SameComment a.preComment b.preComment ∧ SameComment a.postComment b.postComment
+
+theorem sameComment_facts {a b : Option (List Char)} (h : SameComment a b) :
+    commentLen b = commentLen a ∧ optAny hasNewline b = optAny hasNewline a ∧
+      optAny startsWithSlashes b = optAny startsWithSlashes a := by
+  unfold SameComment at h
+  cases a <;> cases b <;> simp only at h
+  · simp
+  · rename_i c c'
+    obtain ⟨h1, h2⟩ := h
+    refine ⟨by simp [commentLen, h1], h2, ?_⟩
+    simp only [optAny]
+    rw [← startsWithSlashes_trim c', ← startsWithSlashes_trim c, h1]
+
+theorem sameMeasure_facts {a b : ListItem} (h : SameMeasure a b) :
+    totalItemWidth b = totalItemWidth a ∧ b.isMultiline = a.isMultiline ∧
+      b.hasSingleLineComment = a.hasSingleLineComment := by
+  obtain ⟨hi, hp, hq⟩ := h
+  obtain ⟨p1, p2, p3⟩ := sameComment_facts hp
+  obtain ⟨q1, q2, q3⟩ := sameComment_facts hq
+  refine ⟨?_, ?_, ?_⟩
+  · simp [totalItemWidth, p1, q1, hi]
+  · simp only [ListItem.isMultiline, ListItem.innerAsRef, hi, p2, q2]
+  · simp only [ListItem.hasSingleLineComment, p3, q3]
+
+theorem forall2_measure {items items' : List ListItem} (h : Forall2 SameMeasure items items') :
+    items'.length = items.length ∧ items'.map totalItemWidth = items.map totalItemWidth ∧
+      items'.any ListItem.isMultiline = items.any ListItem.isMultiline ∧
+      items'.any ListItem.hasSingleLineComment = items.any ListItem.hasSingleLineComment := by
+  induction h with
+  | nil => simp
+  | cons hab _ ih =>
+    obtain ⟨h1, h2, h3⟩ := sameMeasure_facts hab
+    obtain ⟨i1, i2, i3, i4⟩ := ih
+    simp [h1, h2, h3, i1, i2, i3, i4]
+
+/-! ### Gaps -/
+
+/-- What may stand between two items: blanks, a separator, a rewritten comment of one of the items. -/
+def GapPiece (f : ListFormatting) (rc : Rc) (items : List ListItem) (p : Piece) : Prop :=
+  (p.kind = .blank ∧ ∀ c ∈ p.text, c = ' ' ∨ c = '\n' ∨ c ∈ indentString f.shape.indent f.config) ∨
+  (p.kind = .sep ∧ (p.text = f.separator ∨ p.text = trim f.separator)) ∨
+  (p.kind = .pre ∧ ∃ it ∈ items, ∃ c, it.preComment = some c ∧ Rewritten rc p.text c) ∨
+  (p.kind = .post ∧ ∃ it ∈ items, ∃ c, it.postComment = some c ∧ Rewritten rc p.text c)
+
+theorem gapPiece_mono {f : ListFormatting} {rc : Rc} {items : List ListItem} {p : Piece} (it : ListItem)
+    (h : GapPiece f rc items p) : GapPiece f rc (it :: items) p := by
+  rcases h with h | h | ⟨hk, x, hx, c, hc, hr⟩ | ⟨hk, x, hx, c, hc, hr⟩
+  · exact Or.inl h
+  · exact Or.inr (Or.inl h)
+  · exact Or.inr (Or.inr (Or.inl ⟨hk, x, List.mem_cons_of_mem _ hx, c, hc, hr⟩))
+  · exact Or.inr (Or.inr (Or.inr ⟨hk, x, List.mem_cons_of_mem _ hx, c, hc, hr⟩))
+
+theorem tokens_gap {f : ListFormatting} {rc : Rc} {sp : SeparatorPlace} {i : Nat}
+    {items : List ListItem} {ts : List Piece} (h : TokensOK f rc sp i items ts) :
+    ∀ p ∈ ts, p.kind = .item ∨ GapPiece f rc items p := by
+  induction h with
+  | nil i => simp
+  | skip inner hit hs _ ih =>
+    intro p hp
+    rcases ih p hp with h | h
+    · exact Or.inl h
+    · exact Or.inr (gapPiece_mono _ h)
+  | write inner pre post hit hs hpre hpost _ ih =>
+    rename_i i' item rest ts' _
+    intro p hp
+    rcases List.mem_append.mp hp with hp | hp
+    · have hpreC : ∀ q ∈ pre, GapPiece f rc (item :: rest) q := by
+        intro q hq
+        unfold PreOK at hpre
+        split at hpre
+        · subst hpre; simp at hq
+        · rename_i c hc
+          obtain ⟨r, bs, sh, hr, rfl⟩ := hpre
+          simp only [List.mem_singleton] at hq
+          subst hq
+          exact Or.inr (Or.inr (Or.inl ⟨rfl, item, List.mem_cons_self, c, hc, bs, sh, Or.inl hr⟩))
+      have hpostC : ∀ q ∈ post, GapPiece f rc (item :: rest) q := by
+        intro q hq
+        unfold PostOK at hpost
+        split at hpost
+        · subst hpost; simp at hq
+        · rename_i c hc
+          obtain ⟨r, bs, sh, hr, rfl⟩ := hpost
+          simp only [List.mem_singleton] at hq
+          subst hq
+          exact Or.inr (Or.inr (Or.inr ⟨rfl, item, List.mem_cons_self, c, hc, bs, sh, hr⟩))
+      have hsf : ∀ q ∈ sepFront f sp i' rest.isEmpty, GapPiece f rc (item :: rest) q := by
+        intro q hq
+        unfold sepFront at hq
+        split at hq
+        · simp only [List.mem_singleton] at hq; subst hq; exact Or.inr (Or.inl ⟨rfl, Or.inr rfl⟩)
+        · simp at hq
+      have hsb : ∀ q ∈ sepBack f sp i' rest.isEmpty, GapPiece f rc (item :: rest) q := by
+        intro q hq
+        unfold sepBack at hq
+        split at hq
+        · simp only [List.mem_singleton] at hq; subst hq; exact Or.inr (Or.inl ⟨rfl, Or.inl rfl⟩)
+        · simp at hq
+      unfold blockTokens at hp
+      simp only [List.mem_append, List.mem_singleton] at hp
+      rcases hp with ((hp | hp) | hp) | hp
+      · exact Or.inr (hpreC p hp)
+      · exact Or.inr (hsf p hp)
+      · subst hp; exact Or.inl rfl
+      · split at hp
+        · rcases List.mem_append.mp hp with hp | hp
+          · exact Or.inr (hpostC p hp)
+          · exact Or.inr (hsb p hp)
+        · rcases List.mem_append.mp hp with hp | hp
+          · exact Or.inr (hsb p hp)
+          · exact Or.inr (hpostC p hp)
+    · rcases ih p hp with h | h
+      · exact Or.inl h
+      · exact Or.inr (gapPiece_mono _ h)
+
+/-- Every piece of the result that is not an item is a gap piece. -/
+theorem pieces_gap {f : ListFormatting} {rc : Rc} {items : List ListItem} {ps : List Piece}
+    (h : writeListPieces f rc items = some ps) :
+    ∀ p ∈ ps, p.kind ≠ .item → GapPiece f rc items p := by
+  obtain ⟨hb, hts⟩ := writeListPieces_shape h
+  intro p hp hk
+  by_cases hbk : p.kind = .blank
+  · exact Or.inl ⟨hbk, hb p hp hbk⟩
+  · have : p ∈ nonBlank ps := by simp [nonBlank, hp, hbk]
+    rcases tokens_gap hts p this with h' | h'
+    · exact absurd h' hk
+    · exact h'
+
+theorem itemTexts_nonBlank (ps : List Piece) : itemTexts (nonBlank ps) = itemTexts ps := by
+  simp only [itemTexts, nonBlank, List.filter_filter]
+  congr 1
+  apply List.filter_congr
+  intro p _
+  cases p.kind <;> rfl
+
+theorem commentTexts_nonBlank (ps : List Piece) : commentTexts (nonBlank ps) = commentTexts ps := by
+  simp only [commentTexts, nonBlank, List.filter_filter]
+  congr 1
+  apply List.filter_congr
+  intro p _
+  cases p.kind <;> rfl
+
+theorem sepTexts_nonBlank (ps : List Piece) : sepTexts (nonBlank ps) = sepTexts ps := by
+  simp only [sepTexts, nonBlank, List.filter_filter]
+  congr 1
+  apply List.filter_congr
+  intro p _
+  cases p.kind <;> rfl
+
+/-! ### Splitting a piece list at its items -/
+
+/-- `g0 ++ x1 ++ g1 ++ … ++ xn ++ gn` -/
+def weave : List (List Char) → List (List Char) → List Char
+  | g :: gs, x :: xs => g ++ x ++ weave gs xs
+  | g :: _, [] => g
+  | [], _ => []
+
+/-- The maximal runs of non-item pieces (one more than there are item pieces). -/
+def splitGaps : List Piece → List (List Piece)
+  | [] => [[]]
+  | p :: ps =>
+    match splitGaps ps with
+    | g :: gs => if p.kind == .item then [] :: g :: gs else (p :: g) :: gs
+    | [] => [[p]]
+
+theorem splitGaps_ne_nil (ps : List Piece) : splitGaps ps ≠ [] := by
+  cases ps with
+  | nil => simp [splitGaps]
+  | cons p ps =>
+    simp only [splitGaps]
+    split
+    · split <;> simp
+    · simp
+
+theorem splitGaps_length (ps : List Piece) : (splitGaps ps).length = (itemTexts ps).length + 1 := by
+  induction ps with
+  | nil => simp [splitGaps, itemTexts]
+  | cons p ps ih =>
+    simp only [splitGaps]
+    split
+    · rename_i g gs hg
+      rw [hg] at ih
+      by_cases hk : p.kind = .item
+      · simp [hk, itemTexts] at ih ⊢; omega
+      · simp [hk, itemTexts] at ih ⊢; omega
+    · rename_i hg
+      exact absurd hg (splitGaps_ne_nil ps)
+
+theorem splitGaps_weave (ps : List Piece) :
+    render ps = weave ((splitGaps ps).map render) (itemTexts ps) := by
+  induction ps with
+  | nil => simp [splitGaps, itemTexts, weave]
+  | cons p ps ih =>
+    simp only [splitGaps]
+    split
+    · rename_i g gs hg
+      rw [hg] at ih
+      by_cases hk : p.kind = .item
+      · simp only [hk, beq_self_eq_true, ↓reduceIte, List.map_cons, render_cons, ih]
+        simp [itemTexts, hk, weave]
+      · have hk' : (p.kind == PieceKind.item) = false := by simp [hk]
+        simp only [hk', Bool.false_eq_true, ↓reduceIte, List.map_cons, render_cons, ih]
+        have hit : itemTexts (p :: ps) = itemTexts ps := by simp [itemTexts, hk]
+        rw [hit]
+        cases itemTexts ps <;> simp [weave]
+    · rename_i hg
+      exact absurd hg (splitGaps_ne_nil ps)
+
+theorem splitGaps_mem (ps : List Piece) : ∀ g ∈ splitGaps ps, ∀ p ∈ g, p ∈ ps ∧ p.kind ≠ .item := by
+  induction ps with
+  | nil => simp [splitGaps]
+  | cons q ps ih =>
+    simp only [splitGaps]
+    split
+    · rename_i g gs hg
+      rw [hg] at ih
+      by_cases hk : q.kind = .item
+      · simp only [hk, beq_self_eq_true, ↓reduceIte]
+        intro g' hg' p hp
+        rcases List.mem_cons.mp hg' with rfl | hg'
+        · simp at hp
+        · obtain ⟨h1, h2⟩ := ih g' hg' p hp
+          exact ⟨List.mem_cons_of_mem _ h1, h2⟩
+      · have hk' : (q.kind == PieceKind.item) = false := by simp [hk]
+        simp only [hk', Bool.false_eq_true, ↓reduceIte]
+        intro g' hg' p hp
+        rcases List.mem_cons.mp hg' with rfl | hg'
+        · rcases List.mem_cons.mp hp with rfl | hp
+          · exact ⟨List.mem_cons_self, hk⟩
+          · obtain ⟨h1, h2⟩ := ih g List.mem_cons_self p hp
+            exact ⟨List.mem_cons_of_mem _ h1, h2⟩
+        · obtain ⟨h1, h2⟩ := ih g' (List.mem_cons_of_mem _ hg') p hp
+          exact ⟨List.mem_cons_of_mem _ h1, h2⟩
+    · rename_i hg
+      exact absurd hg (splitGaps_ne_nil ps)
+
 end RF.Lemmas.Lists
